@@ -268,6 +268,19 @@ def check_pwl_constraints():
         ('x + max(y) + sum(max(u, 0)) <= 1, y >= v, u >= -1',
          lambda: op(-x, [x + mmax(y) + msum(mmax(u, 0)) <= 1, y >= v,
                          u >= -1]), 2.0)]
+    # constraints that are not convex (or, for equalities, not affine) are
+    # refused when they are written down
+    from cvxopt.modeling import min as mmin
+    for name, mk in (('min(y, u) <= 1', lambda: mmin(y, u) <= 1),
+                     ('0 <= max(y, u)', lambda: mmax(y, u) >= 0),
+                     ('max(y, u) == 1', lambda: mmax(y, u) == 1),
+                     ('-max(y) <= 0', lambda: -mmax(y) <= 0)):
+        try:
+            c = mk()
+        except Exception:
+            continue
+        fail('assembly', {'case': 'constraint ' + name, 'accepted': True,
+                          'type': c.type()})
     for name, mk, want in cases:
         for fmt in ('dense', 'sparse'):
             p = mk()
